@@ -27,6 +27,14 @@ var VerifDir = func() string {
 	return "/verif"
 }()
 
+// RepoDir is the brimdata/zed tree the harness was built against.
+func RepoDir() string {
+	if d := os.Getenv("VERIF_REPO"); d != "" {
+		return d
+	}
+	return "/repo"
+}
+
 // Exit codes.
 const (
 	ExitHeld         = 0
@@ -248,23 +256,31 @@ func (c *Ctx) ReplayWitness(v any) (signature string, err error) {
 }
 
 func loadFindings() []Finding {
-	f, err := os.Open(filepath.Join(VerifDir, "known_findings.jsonl"))
-	if err != nil {
-		return nil
-	}
-	defer f.Close()
+	// known_findings.jsonl plus known_findings.d/*.jsonl (one file per property
+	// family); all committed, never written at run time.
+	files := []string{filepath.Join(VerifDir, "known_findings.jsonl")}
+	more, _ := filepath.Glob(filepath.Join(VerifDir, "known_findings.d", "*.jsonl"))
+	sort.Strings(more)
+	files = append(files, more...)
 	var out []Finding
-	sc := bufio.NewScanner(f)
-	sc.Buffer(make([]byte, 1<<20), 1<<20)
-	for sc.Scan() {
-		line := strings.TrimSpace(sc.Text())
-		if line == "" || strings.HasPrefix(line, "#") {
+	for _, name := range files {
+		f, err := os.Open(name)
+		if err != nil {
 			continue
 		}
-		var fd Finding
-		if json.Unmarshal([]byte(line), &fd) == nil {
-			out = append(out, fd)
+		sc := bufio.NewScanner(f)
+		sc.Buffer(make([]byte, 1<<20), 1<<20)
+		for sc.Scan() {
+			line := strings.TrimSpace(sc.Text())
+			if line == "" || strings.HasPrefix(line, "#") {
+				continue
+			}
+			var fd Finding
+			if json.Unmarshal([]byte(line), &fd) == nil {
+				out = append(out, fd)
+			}
 		}
+		f.Close()
 	}
 	return out
 }
